@@ -23,6 +23,19 @@ PID = 'C07'
 LEAN_TARGETS = ['NibabelModel.Props.C07']
 THEOREMS = [
     'Nb.C07.gen_tables_ok',
+    'Nb.C07.save_harmonises',
+    'Nb.C07.harmonise_once',
+    'Nb.C07.second_save_preserves',
+    'Nb.C07.save_congr_harm',
+    'Nb.C07.histories_harmonise',
+    'Nb.C07.byname_harmonises',
+    'Nb.C07.orig_self_overwrite_loses_data_orig_counterexample',
+    'Nb.C07.mat_roundtrip',
+    'Nb.C07.mat_roundtrip_M_only',
+    'Nb.C07.spm_save_writes_mat',
+    'Nb.C07.nib_gzip_independent',
+    'Nb.C07.repeat_identical_gz',
+    'Nb.C07.plain_gzip_embeds_clock_counterexample',
     'Nb.C07.save_preserves_state',
     'Nb.C07.save_congr',
     'Nb.C07.retry_correct',
@@ -37,27 +50,48 @@ THEOREMS = [
 ASSUMPTIONS = [
     'hand-written Lean step-machine model of the to_file_map control flow (Model/C07.lean), tied to the code by '
     'the differential run of this check: for every generated history the result (raised or not, error kind), the '
-    'complete I/O call log, the consumable header fields, alias, file_map/header bindings, a first-seen id of the '
-    'header bytes and a first-seen id of the bytes written are compared with the model',
+    'complete I/O call log (file-object saves), the consumable header fields, alias, file_map/header bindings, '
+    'default_x_flip, first-seen ids of the header bytes, of the affine, of the image data and of the bytes written, '
+    'and the integer entries of the M / mat variables of every SPM .mat file written are compared with the model',
     'external to the model (parameters `Env`, values observed on clean reference runs of the real code): dtype '
-    'alias resolution, make_array_writer (raises or not, slope/inter, number and size of write calls), '
-    'scipy.io.savemat write sizes, NIfTI extension sizes; header float fields are opaque bit patterns',
-    'update_header() is the identity on a harmonised image (every image is harmonised before its first '
-    'observation; CIFTI-2: after a first normalising save) — intent/pixdim/extension normalisation is not modelled',
+    'alias resolution, make_array_writer (raises or not, slope/inter, number and size of write calls), whether '
+    'hdr.set_slope_inter refuses the computed slope (HeaderDataError inside the try), scipy.io.savemat write sizes, '
+    'NIfTI extension sizes; header float fields are opaque bit patterns; affines are integer-valued (float64 exact)',
+    'update_header() is a model step that may change the non-consumable header bytes ONCE (idempotent by '
+    'construction); WHICH bytes result is external: ids supplied by the correspondence from the real update_header '
+    '(edit stream: in-place affine edits and header edits between saves). CIFTI-2: the normalisation of intent / '
+    'pixdim / extension is still pre-applied by a first save and not exercised with edits',
+    'data sources: in-memory array, ArrayProxy with or without memory map; files are identified by identity '
+    '(inode), never by spelling; a truncating open under a live memory map yields data id 0 (garbage) — SIGBUS, '
+    'zeros and stale bytes are not distinguished. Self-overwrites are generated only with an unchanged on-disk '
+    'layout (same dtype, no rescaling): layout-changing self-saves leave a stale proxy (known C09 findings) and '
+    'are outside this stream; faults cannot be injected into by-name saves',
     'bytes written are abstracted to the list of (piece, state it was computed from); that equal abstract output '
     'means equal bytes is checked by the first-seen ids and, independently, by the oracle against a fresh image',
-    'partial: determinism of gzip/bz2/zstd streams is runtime behaviour of those libraries — oracle only '
-    '(stream `byname`, with the clock moved between the two saves)',
-    'class traits, supported dtype codes and the code->dtype->code round trip are regenerated from the tree '
-    '(Generated/C07.lean) and re-proved (gen_tables_ok)',
+    'gzip: the member header is modelled after CPython GzipFile._write_gzip_header (validated each run against '
+    'gzip.GzipFile and against nibabel ImageOpener for several levels, clocks and names); the arguments nibabel '
+    'passes (filename constant, mtime default and pass-through) are regenerated from the AST of openers.py; the '
+    'deflate body and CRC are parameters. partial: determinism of the deflate / bz2 / zstd STREAMS is runtime '
+    'behaviour of those libraries — oracle only (stream `byname`, three saves with the clock moved)',
+    'class traits, supported dtype codes, the code->dtype->code round trip, the .mat constants (from_111 / to_111 '
+    'shifts, x-flip diagonals of writer and reader) are regenerated from the tree (Generated/C07.lean) and the '
+    'theorems over them re-proved',
 ]
 RULE = ('streams: `faults` = for each of the 9 image classes x {caller file objects, opener-owned file objects} x '
         'configurations (float data stored as int16 with automatic scaling, dtype= override, NIfTI extensions, dtype '
-        'alias, explicit slope, explicit offset) EVERY fault point k = 1..n+1 of the I/O calls of a clean save, each '
-        'followed by two healthy saves; `budget` = byte budgets; `hist` = random histories of saves (dtype= overrides, '
-        'faults) interleaved with set_data_dtype(np dtype | compat | smallest); `byname` = two saves by file name per '
-        'class x {plain,.gz,.bz2,.zst} with the clock moved. A case is non-trivial when it contains a fault or a dtype '
-        'request; distinct by (class, mode, configuration, ops).')
+        'alias, explicit slope, explicit offset, default_x_flip False, sheared/permuted/flipped integer affines, affine '
+        'None, big-endian header, denormal / huge data making set_slope_inter or the writer raise) EVERY fault point '
+        'k = 1..n+1 of the I/O calls of a clean save, each followed by healthy saves incl. to_file_map() on the own '
+        'file_map; `budget` = byte budgets; `hist` = random histories of saves (dtype= overrides, faults, file_map=None) '
+        'interleaved with set_data_dtype(np dtype | compat | smallest) and in-place affine / header edits; `edit` = '
+        'save, edit (affine in place | zooms | descrip), faulted save at several k, three healthy saves, edit back, '
+        'save; `loaded` = images loaded from a file (mmap True/False, plain/.gz, source path spelled abs/rel/./x/'
+        'sub/../x) saved BY NAME in a child process onto their own source (spelled abs/rel/./x/sub/../x/symlink) and '
+        'elsewhere, with dtype= overrides; `matload` = .mat files with {M, mat, both, neither} x writer flip x reader '
+        'flip x affine; `gzhdr` = gzip header of nibabel sink and plain GzipFile x level x clock x name; `byname` = '
+        'three saves by file name per class x {plain,.gz,.bz2,.zst} x {native, int16} with the clock moved. A case is '
+        'non-trivial when it contains a fault, a dtype request, an edit or a by-name save; distinct by (class, mode, '
+        'configuration, ops).')
 PENDING_FINDINGS = []
 
 AFF = [[2.0, 0, 0, -10], [0, 3, 0, -20], [0, 0, 4, -30], [0, 0, 0, 1]]
@@ -152,14 +186,93 @@ def regen():
                     f'hasMat := {b(has_mat)}, sizeofHdr := {size}, singleVoxOffset := {svo}, '
                     f'codes := [{", ".join(map(str, codes))}], '
                     f'roundtrip := [{", ".join("(%d, %d)" % p for p in rt)}] }}')
+    consts = source_constants()
     src = ('/-! GENERATED by harness/props/c07.py regen() from the nibabel working tree — do not edit. -/\n'
            'namespace Nb.C07.Gen\n\n'
            '/-- per image class: what the header class says (read from the class attributes / probed by calls) -/\n'
            'structure Traits where\n  hasSlope : Bool\n  hasInter : Bool\n  single : Bool\n  hasMat : Bool\n'
            '  sizeofHdr : Nat\n  singleVoxOffset : Nat\n  codes : List Nat\n  roundtrip : List (Nat × Nat)\n'
-           '  deriving Repr, DecidableEq\n\n' + '\n'.join(rows) + '\n\nend Nb.C07.Gen\n')
+           '  deriving Repr, DecidableEq\n\n' + '\n'.join(rows) + '\n\n' + consts + '\nend Nb.C07.Gen\n')
     write_if_changed(os.path.join(LEAN, 'NibabelModel', 'Generated', 'C07.lean'), src)
-    return ['Nb.C07.Gen tables (8 header classes) satisfy gen_tables_ok']
+    return ['Nb.C07.Gen tables (8 header classes) satisfy gen_tables_ok',
+            'Nb.C07.Gen .mat constants (from_111 / to_111 shifts, x-flip diagonals of writer and reader) read from the '
+            'AST of spm99analyze.py: mat_roundtrip, mat_roundtrip_M_only, spm_save_writes_mat re-proved over them',
+            'Nb.C07.Gen gzip arguments of DeterministicGzipFile (filename= constant, mtime default and pass-through) '
+            'read from the AST of openers.py: nib_gzip_independent, repeat_identical_gz re-proved over them']
+
+
+def source_constants():
+    """constants of the working tree the theorems rest on, read from the AST (Leg T)"""
+    import ast
+    from common import REPO
+
+    def func(tree, cls, name):
+        for n in ast.walk(tree):
+            if isinstance(n, ast.ClassDef) and n.name == cls:
+                for f in n.body:
+                    if isinstance(f, ast.FunctionDef) and f.name == name:
+                        return f
+        raise LookupError(f'{cls}.{name}')
+
+    def const(node):
+        v = ast.literal_eval(node)
+        if isinstance(v, bool) or not isinstance(v, (int, float)) or v != int(v):
+            raise ValueError(ast.dump(node))
+        return int(v)
+
+    def shift_of(f, var):
+        # `<var>[:3, 3] = <const>`
+        for n in ast.walk(f):
+            if (isinstance(n, ast.Assign) and len(n.targets) == 1 and isinstance(n.targets[0], ast.Subscript)
+                    and isinstance(n.targets[0].value, ast.Name) and n.targets[0].value.id == var):
+                if ast.unparse(n.targets[0].slice).replace(' ', '').strip('()') != ':3,3':
+                    raise ValueError(ast.unparse(n))
+                return const(n.value)
+        raise LookupError(var)
+
+    def diag_of(f):
+        # the argument of the only `np.diag([...])`
+        found = [n for n in ast.walk(f) if isinstance(n, ast.Call) and ast.unparse(n.func) == 'np.diag']
+        vals = {tuple(const(e) for e in n.args[0].elts) for n in found}
+        if len(vals) != 1:
+            raise ValueError(f'np.diag calls: {vals}')
+        return list(vals.pop())
+
+    spm = ast.parse(open(os.path.join(REPO, 'nibabel', 'spm99analyze.py')).read())
+    w = func(spm, 'Spm99AnalyzeImage', 'to_file_map')
+    r = func(spm, 'Spm99AnalyzeImage', 'from_file_map')
+    op = ast.parse(open(os.path.join(REPO, 'nibabel', 'openers.py')).read())
+    init = func(op, 'DeterministicGzipFile', '__init__')
+    names = [a.arg for a in init.args.args]
+    defaults = dict(zip(names[len(names) - len(init.args.defaults):], init.args.defaults))
+    mtime_default = const(defaults['mtime'])
+    sup = [n for n in ast.walk(init) if isinstance(n, ast.Call) and ast.unparse(n.func) == 'super().__init__']
+    if len(sup) != 1:
+        raise ValueError('super().__init__ calls')
+    kws = {k.arg: k.value for k in sup[0].keywords}
+    fn = kws.get('filename')
+    passes_path = not (isinstance(fn, ast.Constant) and isinstance(fn.value, str))
+    fn_const = [] if passes_path else list(fn.value.encode('latin-1'))
+    passes_mtime = isinstance(kws.get('mtime'), ast.Name) and kws['mtime'].id == 'mtime'
+    gzo = [n for n in ast.walk(op) if isinstance(n, ast.FunctionDef) and n.name == '_gzip_open'][0]
+    gnames = [a.arg for a in gzo.args.args]
+    gdef = dict(zip(gnames[len(gnames) - len(gzo.args.defaults):], gzo.args.defaults))
+    b = lambda v: 'true' if v else 'false'
+    il = lambda xs: '[' + ', '.join(str(x) for x in xs) + ']'
+    return (
+        '/-- spm99analyze.py, `Spm99AnalyzeImage.to_file_map`: `from_111[:3, 3] = <c>` and `np.diag([...])` -/\n'
+        f'def from111Shift : Int := {shift_of(w, "from_111")}\n'
+        f'def xflipDiagW : List Int := {il(diag_of(w))}\n'
+        '/-- `Spm99AnalyzeImage.from_file_map`: `to_111[:3, 3] = <c>` and `np.diag([...])` -/\n'
+        f'def to111Shift : Int := {shift_of(r, "to_111")}\n'
+        f'def xflipDiagR : List Int := {il(diag_of(r))}\n'
+        '/-- openers.py, `DeterministicGzipFile.__init__` → `GzipFile.__init__(filename=…, mtime=…)` and the default of\n'
+        '    `mtime` there and in `_gzip_open` -/\n'
+        f'def gzPassesPath : Bool := {b(passes_path)}\n'
+        f'def gzFilenameConst : List Nat := {il(fn_const)}\n'
+        f'def gzPassesMtime : Bool := {b(passes_mtime)}\n'
+        f'def gzMtimeDefault : Nat := {mtime_default}\n'
+        f'def gzOpenMtimeDefault : Nat := {const(gdef["mtime"])}\n')
 
 
 # ------------------------------------------------------------------ faultio
@@ -447,12 +560,80 @@ def full_state(cls, img):
     return st
 
 
+HDR_EDITS = ['descrip', 'zooms', 'zooms2', 'dbname']
+
+
+def apply_edit(cls, img, op):
+    """an in-place edit of the image between saves: ['E', 'aff', <4x4 ints>] = `img.affine[...] = …` (the
+    array object stays the same), ['E', 'hdr', <name>] = a header edit"""
+    hdr = header_of(cls, img)
+    if op[1] == 'aff':
+        img.affine[...] = np.array(op[2], dtype=np.float64)
+    elif op[1] == 'hdr':
+        if op[2] == 'descrip' and cls != 'mgh':
+            hdr['descrip'] = b'edited by C07'
+        elif op[2] == 'dbname' and cls in ANALYZE_FAMILY:
+            hdr['db_name'] = b'c07'
+        elif op[2] in ('zooms', 'zooms2'):
+            z = list(hdr.get_zooms())
+            z[:3] = [7.0, 6.0, 5.0] if op[2] == 'zooms' else [1.0, 1.0, 1.0]
+            hdr.set_zooms(z)
+    else:
+        raise ValueError(op)
+
+
+def rest_digest(cls, hdr):
+    """digest of the header bytes OTHER than the consumables (offset, dtype, slope, inter)"""
+    h = hdr.copy()
+    h.set_data_dtype(np.float32)
+    if cls != 'mgh':
+        h.set_data_offset(0)
+        h.set_slope_inter(None, None)
+    return hashlib.sha1(bytes(h.binaryblock)).hexdigest()
+
+
+def edit_plan(d):
+    """for every E op: (affine token or '=', id of the non-consumable header bytes right after the edit, id that
+    update_header() would turn them into or '-'), obtained by replaying the edits on a scratch image; a save is
+    replayed as `update_header()` only"""
+    import copy
+    cls = d['cls']
+    if not any(op[0] == 'E' for op in d['ops']):
+        return {}
+    img = build(d)
+    seen = {}
+    first_seen(seen, rest_digest(cls, header_of(cls, img)))
+    plan = {}
+    for j, op in enumerate(d['ops']):
+        if op[0] == 'E':
+            apply_edit(cls, img, op)
+            now = first_seen(seen, rest_digest(cls, header_of(cls, img)))
+            c = copy.deepcopy(img)
+            c.update_header()
+            pend = first_seen(seen, rest_digest(cls, header_of(cls, c)))
+            tok = '='
+            if op[1] == 'aff':
+                tok = ','.join(str(int(v)) for row in op[2] for v in row)
+            plan[j] = (tok, now, '-' if pend == now else pend)
+        elif op[0] in ('S', 'OS', 'N'):
+            img.update_header()
+        elif op[0] in ('D', 'A'):
+            try:
+                img.set_data_dtype(np.dtype(op[1]) if op[0] == 'D' else op[1])
+            except Exception:
+                pass
+    return plan
+
+
 def canon_err(e):
     name = type(e).__name__
     if name == 'MGHError':
         name = 'HeaderDataError'
     if isinstance(e, OSError):
         name = 'OSError'
+    from nibabel.arraywriters import WriterError
+    if isinstance(e, WriterError):
+        name = 'WriterError'          # ScalingError is a WriterError
     return 'ERR:' + name
 
 
@@ -534,6 +715,9 @@ def writer_entry(d, code_name):
     img = build(dict(base_config(d), setdt=code_name))
     res, budget, fm = do_save(cls, img, False)
     wok = res == 'ok'
+    # HeaderDataError here (no explicit offset, supported dtype) can only be `hdr.set_slope_inter(computed
+    # slope, inter)` refusing a slope that is 0 / infinite in the header's float32 field — inside the `try:`
+    slope_raises = res == 'ERR:HeaderDataError'
     sl = it = 'n'
     if wok:
         bmap = map_bytes(fm)
@@ -551,9 +735,9 @@ def writer_entry(d, code_name):
         exts, dw, trailing = split_log(cls, budget.log)
         if len(set(dw)) > 1:
             raise RuntimeError(f'data writes of unequal size {dw}')
-        ent = (wok, sl, it, len(dw), dw[0] if dw else 0, exts, trailing)
+        ent = (2 if slope_raises else int(wok), sl, it, len(dw), dw[0] if dw else 0, exts, trailing)
     else:
-        ent = (False, 'n', 'n', 0, 0, None, None)
+        ent = (2 if slope_raises else 0, 'n', 'n', 0, 0, None, None)
     _ext_cache[key] = ent
     return ent
 
@@ -621,7 +805,11 @@ def protocol_line(d):
         _, _, _, _, _, exts, trailing = writer_entry(d, 'float32')
         exts, trailing = exts or [], trailing or []
     ops = []
-    for op in d['ops']:
+    plan = edit_plan(d)
+    for jop, op in enumerate(d['ops']):
+        if op[0] == 'E':
+            ops.append('E:%s:%s:%s' % plan[jop])
+            continue
         if op[0] in ('S', 'OS'):
             _, dt, fault, fm = op
             dts = '-' if dt is None else ('ac' if dt == 'compat' else 'as' if dt == 'smallest' else
@@ -653,17 +841,32 @@ def protocol_line(d):
 
 # ------------------------------------------------------------------ cases
 
+def gz_path(d):
+    return os.path.join(scratch_root(), 'gz', d['dir'], d['name'])
+
+
 def mk_case(d, stream):
     d = dict(d)
     d.setdefault('op', 'run')
     d['stream'] = stream
     if d['op'] == 'byname':
-        return Case(None, d, ('byname', d['cls'], d['cext'], d.get('setdt')), stream)
+        return Case(None, d, ('byname', d['cls'], d['cext'], d.get('setdt'), d.get('n', 2)), stream)
+    if d['op'] == 'gzhdr':
+        line = 'C07 gzhdr {kind} {level} {mtime} {clock} {path}'.format(
+            kind=d['kind'], level=d['level'], mtime=d.get('mtime', 0), clock=d['clock'],
+            path=','.join(str(b) for b in gz_path(d).encode('latin-1')))
+        return Case(line, d, ('gzhdr', d['kind'], d['level'], d['clock'], d['name'], d.get('mtime', 0)), stream)
+    if d['op'] == 'matload':
+        try:
+            line = matload_line(d)
+        except Exception as e:
+            line = 'C07 gen-failed ' + type(e).__name__
+        return Case(line, d, ('matload', d['cls'], repr(d['aff']), d['flipw'], d['flipr'], d['keys']), stream)
     try:
         line = protocol_line(d)
     except Exception as e:           # generator problem: surfaces as a driver disagreement (`bad-op`)
         line = 'C07 gen-failed ' + type(e).__name__
-    nontrivial = any((op[0] in ('S', 'OS') and (op[1] or op[2])) or op[0] in ('D', 'A', 'N') for op in d['ops']) \
+    nontrivial = any((op[0] in ('S', 'OS') and (op[1] or op[2])) or op[0] in ('D', 'A', 'N', 'E') for op in d['ops']) \
         or d.get('alias')
     key = (config_key(d), d['owned'], repr(d['ops'])) if nontrivial else None
     return Case(line, d, key, stream)
@@ -691,6 +894,10 @@ def default_data(cls, kind='f8'):
         return {'dt': 'int16', 'shape': shape, 'lo': -3000, 'hi': 3000, 'seed': 5}
     if kind == 'u1':
         return {'dt': 'uint8', 'shape': shape, 'lo': 0, 'hi': 255, 'seed': 5}
+    if kind == 'denorm':      # float64 denormals: the scale factor underflows to 0 in the header's float32 field
+        return {'dt': 'float64', 'shape': shape, 'lo': 0.0, 'hi': 2e-320, 'seed': 9}
+    if kind == 'huge':        # range overflows float32: slope inf (SPM: HeaderDataError) / ScalingError (NIfTI)
+        return {'dt': 'float64', 'shape': shape, 'lo': 0.0, 'hi': 1.7e308, 'seed': 9}
     raise ValueError(kind)
 
 
@@ -735,6 +942,11 @@ def configs(cls, tier):
                         {'data': default_data(cls, 'f4'), 'xflip': False, 'aff': AFFS[4]}, 'uint8'))
             out.append(('f8->i2 explicit flip flag True, flipped affine',
                         {'data': default_data(cls, 'f8'), 'setdt': 'int16', 'xflip': True, 'aff': AFFS[2]}, None))
+    # `hdr.set_slope_inter(*get_slope_inter(arr_writer))` raises HeaderDataError inside the `try:` (files open)
+    out.append(('f8 denormals->i2 (set_slope_inter raises)', {'data': default_data(cls, 'denorm'), 'setdt': 'int16'}, None))
+    if tier != 'quick' or cls in ('spm99', 'n1single'):
+        out.append(('f8 huge->i2', {'data': default_data(cls, 'huge'), 'setdt': 'int16'}, None))
+        out.append(('f8 denormals,dtype=u1', {'data': default_data(cls, 'denorm')}, 'uint8'))
     if cls in ('n1pair', 'n2single'):
         out.append(('f8->i2 big-endian header, sheared affine',
                     {'data': default_data(cls, 'f8'), 'setdt': 'int16', 'endian': '>', 'aff': AFFS[1]}, None))
@@ -825,6 +1037,11 @@ def rand_history(rng, cls, tier):
             elif q < 0.6:
                 fault = ['b', rng.randrange(0, 1600)]
             ops.append(['S', dt, fault, None if rng.random() < 0.15 else len(ops) + 1])
+        elif r < 0.68 and cls != 'cifti2' and d.get('aff', 'default') is not None:
+            if rng.random() < 0.5:
+                ops.append(['E', 'aff', rng.choice(AFFS)])
+            else:
+                ops.append(['E', 'hdr', rng.choice(HDR_EDITS)])
         elif r < 0.85:
             ops.append(['D', rng.choice(DTNAMES)])
         else:
@@ -904,12 +1121,48 @@ def cases(rng, tier):
     nh = {'quick': 60, 'thorough': 1500, 'search': 400}[tier]
     for _ in range(nh):
         out.append(mk_case(rand_history(rng, rng.choice(CLASSES), tier), 'hist'))
+    # ---- in-place edits of the affine / the header between saves: the first save harmonises, later ones change nothing
+    for cls in CLASSES[:-1]:
+        kind = 'f4' if cls in ('mgh', 'analyze') else 'f8'
+        base = {'cls': cls, 'data': default_data(cls, kind)}
+        if cls not in ('mgh', 'analyze'):
+            base['setdt'] = 'int16'
+        edits = [['E', 'aff', AFFS[1]], ['E', 'aff', AFFS[4]], ['E', 'hdr', 'zooms'], ['E', 'hdr', 'descrip']]
+        if tier != 'quick':
+            edits += [['E', 'aff', AFFS[2]], ['E', 'hdr', 'zooms2'], ['E', 'hdr', 'dbname']]
+        for e in edits:
+            for owned in (False, True):
+                n, _ = clean_calls(dict(base, owned=owned, ops=[]), owned, None)
+                ks = [None, 1, n // 2, n] if tier == 'quick' else [None] + list(range(1, n + 1))
+                for k in ks:
+                    fault = None if k is None else ['k', k]
+                    ops = [['S', None, None, 1], e, ['S', None, fault, 2], ['S', None, None, 3], ['S', None, None, 4],
+                           ['E', 'aff', AFFS[0]], ['S', None, None, 5]]
+                    out.append(mk_case(dict(base, owned=owned, ops=ops), 'edit'))
     # ---- images LOADED from a file, saved by name onto their own source (every spelling) and elsewhere
     out.extend(loaded_cases(rng, tier))
+    # ---- gzip member header: nibabel's sink (and plain GzipFile) x level x clock x file name
+    names = ['a.nii.gz', 'other_name.img.gz', 'x.gz', 'y.hdr.gz', 'b.mgz']
+    for kind in ('nib', 'plain'):
+        for level in ((1, 6, 9) if tier != 'quick' else (1, 9)):
+            for clock in (0, 1, 1700000000, 4102444800) + tuple(rng.randrange(2 ** 32) for _ in range(2)):
+                for name in names if tier != 'quick' else [rng.choice(names), 'a.nii.gz']:
+                    out.append(mk_case({'op': 'gzhdr', 'kind': kind, 'level': level, 'clock': clock, 'name': name,
+                                        'dir': rng.choice(['d1', 'd2/sub'])}, 'gzhdr'))
+    out.append(mk_case({'op': 'gzhdr', 'kind': 'nib', 'level': 6, 'clock': 77, 'name': 'a.nii.gz', 'dir': 'd1',
+                        'mtime': 123456}, 'gzhdr'))
+    # ---- the .mat reader: every affine x writer flip x reader flip x which variables the file has
+    for cls in ('spm99', 'spm2'):
+        for aff in AFFS if tier != 'quick' else [AFFS[1], AFFS[4], rng.choice(AFFS)]:
+            for flipw in (True, False):
+                for flipr in (True, False):
+                    for keys in ('both', 'mat', 'M') + (('none',) if flipw and flipr else ()):
+                        out.append(mk_case({'op': 'matload', 'cls': cls, 'aff': aff, 'flipw': flipw, 'flipr': flipr,
+                                            'keys': keys}, 'matload'))
     # ---- by file name, compressed
     for cls in CLASSES:
         for ext in ('', '.gz', '.bz2', '.zst'):
-            for setdt in ((None, 'int16') if cls not in ('mgh', 'analyze', 'cifti2') else (None,)):
+            for setdt in ((None, 'int16') if cls != 'mgh' else (None,)):
                 out.append(mk_case({'op': 'byname', 'cls': cls, 'cext': ext, 'setdt': setdt,
                                     'data': default_data(cls, 'f4' if cls in ('mgh', 'analyze') else 'f8'), 'ops': []},
                                    'byname'))
@@ -918,6 +1171,8 @@ def cases(rng, tier):
 
 def shrink_candidates(case):
     d = case.data
+    if d.get('op') in ('gzhdr', 'matload', 'byname'):
+        return
     if d.get('op') == 'lrun':
         ops = d['ops']
         for i in range(len(ops)):
@@ -931,7 +1186,7 @@ def shrink_candidates(case):
         if len(ops) > 1:
             yield mk_case(dict(d, ops=ops[:i] + ops[i + 1:]), d.get('stream', 'shrunk'))
     for k in ('ext', 'slope', 'offset', 'endian', 'xflip', 'aff'):
-        if k in d:
+        if k in d and not (k == 'aff' and any(op[0] == 'E' for op in ops)):
             d2 = dict(d)
             d2.pop(k)
             yield mk_case(d2, d.get('stream', 'shrunk'))
@@ -988,10 +1243,131 @@ def mat_token(bmap):
     return f' M={M}/{mat}'
 
 
+# ---- gzip member header of the sink nibabel uses (and of plain gzip.GzipFile, to validate the model of CPython)
+
+def impl_gzhdr(case):
+    import gzip
+    from unittest import mock
+    from nibabel.openers import ImageOpener as Opener     # knows .mgz as well
+    d = case.data
+    path = gz_path(d)
+    os.makedirs(os.path.dirname(path), exist_ok=True)
+    with mock.patch('time.time', lambda: float(d['clock']) + 0.75):
+        if d['kind'] == 'nib':
+            kw = {'compresslevel': d['level']}
+            if d.get('mtime'):
+                kw['mtime'] = d['mtime']
+            with Opener(path, 'wb', **kw) as f:
+                f.write(b'C07 payload' * 7)
+        else:
+            with gzip.GzipFile(path, 'wb', d['level']) as f:
+                f.write(b'C07 payload' * 7)
+    raw = open(path, 'rb').read()
+    os.unlink(path)
+    n = 10
+    if raw[3] & 8:
+        n = raw.index(b'\0', 10) + 1
+    case.extra = {'hdr': list(raw[:n])}
+    return ','.join(str(b) for b in raw[:n])
+
+
+def oracle_gzhdr(case, out):
+    d = case.data
+    if d['kind'] != 'nib' or d.get('mtime'):
+        return None
+    hdr = (case.extra or {}).get('hdr')
+    if hdr is None:
+        return f'gzip sink did not run: {out}'
+    xfl = 2 if d['level'] == 9 else 4 if d['level'] == 1 else 0
+    want = [31, 139, 8, 0, 0, 0, 0, 0, xfl, 255]
+    if hdr != want:
+        return (f'gzip header written by nibabel for {d["name"]!r} at clock {d["clock"]} is {hdr}: it depends on the '
+                f'clock or the file name (expected {want}), so two saves of an unchanged image are not byte-identical')
+    return None
+
+
+# ---- the `.mat` reader of the SPM classes
+
+def matload_parts(d):
+    """(header bytes, image bytes, M ints, mat ints) of an SPM image with affine d['aff'] written with flip d['flipw']"""
+    key = ('matload', d['cls'], repr(d['aff']), d['flipw'])
+    if key not in _ext_cache:
+        img = build({'cls': d['cls'], 'data': default_data(d['cls'], 'u1'), 'aff': d['aff'], 'xflip': d['flipw']})
+        res, budget, fm = do_save(d['cls'], img, False)
+        if res != 'ok':
+            raise RuntimeError(res)
+        b = map_bytes(fm)
+        M, mat = mat_ints(b['mat'])
+        _ext_cache[key] = (b['header'], b['image'], M, mat)
+    return _ext_cache[key]
+
+
+def matload_line(d):
+    _, _, M, mat = matload_parts(d)
+    return 'C07 matload {f} {mat} {M}'.format(f=int(d['flipr']), mat=mat if d['keys'] in ('both', 'mat') else '-',
+                                              M=M if d['keys'] in ('both', 'M') else '-')
+
+
+def impl_matload(case):
+    import scipy.io as sio
+    from nibabel.fileholders import FileHolder
+    d = case.data
+    hb, ib, M, mat = matload_parts(d)
+    as_arr = lambda t: np.array([float(v) for v in t.split(',')]).reshape(4, 4)
+    mats = {}
+    if d['keys'] in ('both', 'M'):
+        mats['M'] = as_arr(M)
+    if d['keys'] in ('both', 'mat'):
+        mats['mat'] = as_arr(mat)
+    if not mats:
+        mats['other'] = np.eye(4)
+    mf = io.BytesIO()
+    sio.savemat(mf, mats, format='4')
+    k = klass_of(d['cls'])
+    flip = bool(d['flipr'])
+
+    # the documented way to choose the convention for LOADED images: the class attribute of the header class
+    class Hdr(k.header_class):
+        default_x_flip = flip
+
+    class Img(k):
+        header_class = Hdr
+
+    fm = {'header': FileHolder(fileobj=io.BytesIO(hb)), 'image': FileHolder(fileobj=io.BytesIO(ib)),
+          'mat': FileHolder(fileobj=io.BytesIO(mf.getvalue()))}
+    try:
+        back = Img.from_file_map(fm)
+    except Exception as e:
+        case.extra = {'err': canon_err(e)}
+        return canon_err(e)
+    a = np.asarray(back.affine, dtype=np.float64)
+    case.extra = {'aff': a}
+    if not np.all(a == np.round(a)):
+        return 'nonint'
+    return ','.join(str(int(v)) for v in a.ravel())
+
+
+def oracle_matload(case, out):
+    d = case.data
+    ex = case.extra or {}
+    if d['keys'] == 'none':
+        return None if ex.get('err') == 'ERR:ValueError' else f'a .mat file without M / mat loaded as {out}'
+    if d['keys'] == 'M' and d['flipr'] != d['flipw']:
+        return None
+    if 'aff' not in ex or not np.array_equal(ex['aff'], np.array(d['aff'], dtype=np.float64)):
+        return (f'{d["cls"]}: the .mat file written for affine {d["aff"]} (default_x_flip={d["flipw"]}), variables '
+                f'{d["keys"]}, loads (default_x_flip={d["flipr"]}) as {out}')
+    return None
+
+
 def impl(case):
     d = case.data
     if d.get('op') == 'byname':
         return impl_byname(case)
+    if d.get('op') == 'gzhdr':
+        return impl_gzhdr(case)
+    if d.get('op') == 'matload':
+        return impl_matload(case)
     if d.get('op') == 'lrun':
         return impl_loaded(case)
     cls = d['cls']
@@ -1006,10 +1382,17 @@ def impl(case):
 
     parts = [state()]
     recs = []
+    edited = False
     for j, op in enumerate(d['ops'], 1):
         if op[0] in ('S', 'OS'):
             _, dt, fault, fmid = op
             before = full_state(cls, img)
+            harm = before
+            if edited:
+                import copy
+                c = copy.deepcopy(img)
+                c.update_header()
+                harm = full_state(cls, c)
             budget = Budget(fault[1] if fault and fault[0] == 'k' else None, fault[1] if fault and fault[0] == 'b' else None)
             fm = make_map(cls, budget, d['owned'])
             kw = {} if dt is None else {'dtype': parse_dt(dt)}
@@ -1031,7 +1414,8 @@ def impl(case):
             bmap = map_bytes(fm) if res == 'ok' else None
             oid = first_seen(oseen, digest(bmap)) if bmap is not None else '-'
             recs.append({'j': j, 'op': op, 'res': res, 'before': before, 'after': after, 'bytes': bmap,
-                         'log': list(budget.log)})
+                         'log': list(budget.log), 'harm': harm,
+                         'aff_now': None if getattr(img, '_affine', None) is None else np.array(img._affine)})
             parts.append(f'{res} n={budget.count} [{",".join(budget.log)}] {state()} out={oid}{mat_token(bmap)}')
         elif op[0] in ('D', 'A'):
             try:
@@ -1041,6 +1425,11 @@ def impl(case):
                 res = canon_err(e)
             recs.append({'j': j, 'op': op, 'res': res})
             parts.append(f'{res} {state()}')
+        elif op[0] == 'E':
+            apply_edit(cls, img, op)
+            edited = True
+            recs.append({'j': j, 'op': op, 'res': 'ok'})
+            parts.append(f'ok {state()}')
         else:
             raise ValueError(op)
     case.extra = {'recs': recs}
@@ -1168,7 +1557,7 @@ def impl_byname(case):
     extra = {'before': before}
     with tempfile.TemporaryDirectory(prefix='c07_') as tmp:
         outs = []
-        for i, name in enumerate(('first', 'second_with_other_name')):
+        for i, name in enumerate(('first', 'second_with_other_name', 'third')):
             sub = os.path.join(tmp, str(i))
             os.mkdir(sub)
             fn = os.path.join(sub, name + primary + d['cext'])
@@ -1208,6 +1597,9 @@ def reference(d, applied, dt):
     if key not in _ref_cache:
         img = build(d)
         for op in applied:
+            if op[0] == 'E':
+                apply_edit(d['cls'], img, op)
+                continue
             try:
                 img.set_data_dtype(np.dtype(op[1]) if op[0] == 'D' else op[1])
             except Exception:
@@ -1228,7 +1620,7 @@ def load_back(cls, bmap):
     return k.from_file_map(fm)
 
 
-def decode_check(d, rec_desc, bmap, applied, dt, autoscale):
+def decode_check(d, rec_desc, bmap, applied, dt, autoscale, aff_now=None):
     """fresh load of the written bytes: data within half a scale step, right affine, right dtype"""
     cls = d['cls']
     arr = make_array(d['data']).astype(np.float64)
@@ -1244,7 +1636,7 @@ def decode_check(d, rec_desc, bmap, applied, dt, autoscale):
     if cls != 'cifti2':
         hdr = back.header
         if cls in NIFTI or cls == 'mgh' or cls in ('spm99', 'spm2'):
-            want = affine_of(d)
+            want = affine_of(d) if aff_now is None else aff_now.tolist()
             if want is not None and not np.allclose(back.affine, np.array(want, dtype=float), rtol=1e-5, atol=1e-4):
                 return f'{rec_desc}: loaded affine differs: {back.affine.tolist()} (image affine {want})'
     else:
@@ -1327,19 +1719,27 @@ def oracle(case, out):
         return oracle_byname(case, out)
     if d.get('op') == 'lrun':
         return oracle_loaded(case, out)
+    if d.get('op') == 'gzhdr':
+        return oracle_gzhdr(case, out)
+    if d.get('op') == 'matload':
+        return oracle_matload(case, out)
     if out.startswith('ERR:'):
         return f'running the history raised outside any save: {out}'
     cls = d['cls']
     applied = []
     for rec in ex['recs']:
         op = rec['op']
-        if op[0] in ('D', 'A'):
+        if op[0] in ('D', 'A', 'E'):
             applied.append(op)
             continue
         _, dt, fault, _ = op
         desc = (f'{cls} save #{rec["j"]} (dtype={dt}, fault={fault}, owned={d["owned"]}, result {rec["res"]}, '
                 f'I/O calls {len(rec["log"])})')
-        ch = diff_state(rec['before'], rec['after'])
+        # the image after the save is the image before it, or — after an in-place edit of affine / header —
+        # that image with update_header() applied (computed on a deep copy); the latter if the save succeeded
+        ch = diff_state(rec['harm'], rec['after'])
+        if ch and rec['res'] != 'ok' and not diff_state(rec['before'], rec['after']):
+            ch = []
         if ch:
             det = ''
             if 'fields' in ch:
@@ -1359,7 +1759,7 @@ def oracle(case, out):
                         f'(files {bad}; lengths {[len(rec["bytes"][k]) for k in bad]} vs {[len(rbytes[k]) for k in bad]})')
             f = rec['before']['fields']
             autoscale = f[2] == 'n' and f[3] == 'n'
-            bad = decode_check(d, desc, rec['bytes'], applied, dt, autoscale)
+            bad = decode_check(d, desc, rec['bytes'], applied, dt, autoscale, rec.get('aff_now'))
             if bad:
                 return bad
         elif rec['res'] == 'ERR:OSError':
@@ -1376,23 +1776,38 @@ def oracle_byname(case, out):
     ex = case.extra or {}
     if 'outs' not in ex:
         return f'by-name save did not run: {out}'
-    (r1, f1), (r2, f2) = ex['outs']
     desc = f'{d["cls"]} to_filename(*{d["cext"] or "(plain)"}) setdt={d.get("setdt")}'
-    if r1 != r2:
-        return f'{desc}: first save {r1}, second save {r2}'
+    (r1, f1) = ex['outs'][0]
     for a in ex['after']:
         ch = diff_state(ex['before'], a)
         if ch:
             return f'{desc}: the save changed the image: {ch}'
+    for nth, (r2, f2) in enumerate(ex['outs'][1:], 2):
+        bad = _byname_pair(desc, nth, r1, f1, r2, f2)
+        if bad:
+            return bad
+    return _byname_loaded(d, desc, r1, ex)
+
+
+def _byname_pair(desc, nth, r1, f1, r2, f2):
+    if r1 != r2:
+        return f'{desc}: first save {r1}, save #{nth} {r2}'
     if r1 != 'ok':
-        # a refusal (e.g. WriterError) is not a violation of this property
         return None
     if sorted(f1) != sorted(f2):
         return f'{desc}: file sets differ {sorted(f1)} vs {sorted(f2)}'
     for k in f1:
         if f1[k] != f2[k]:
             i = next((i for i, (x, y) in enumerate(zip(f1[k], f2[k])) if x != y), min(len(f1[k]), len(f2[k])))
-            return f'{desc}: two saves of the unchanged image differ in {k} at byte {i} (lengths {len(f1[k])}, {len(f2[k])})'
+            return (f'{desc}: save #1 and save #{nth} of the unchanged image differ in {k} at byte {i} '
+                    f'(lengths {len(f1[k])}, {len(f2[k])})')
+    return None
+
+
+def _byname_loaded(d, desc, r1, ex):
+    if r1 != 'ok':
+        # a refusal (e.g. WriterError) is not a violation of this property
+        return None
     lb = ex.get('loaded')
     if isinstance(lb, str):
         return f'{desc}: saved file does not load: {lb}'
@@ -1413,6 +1828,10 @@ def signature(case, what):
     d = case.data
     if d.get('op') == 'byname':
         return f'byname:{d["cls"]}:{d["cext"]}:' + ('not-identical' if 'differ in' in what else 'other')
+    if d.get('op') == 'gzhdr':
+        return 'gzip:header-not-deterministic'
+    if d.get('op') == 'matload':
+        return f'matload:{d["cls"]}:{d["keys"]}'
     if d.get('op') == 'lrun':
         kind = ('crash' if 'process died' in what else 'state-changed' if 'changed the image' in what else
                 'not-identical' if 'byte-identical' in what else 'decode')
